@@ -92,10 +92,9 @@ CHECKS = {
          "src.dataset_processor.ProcessPoolExecutor is replaced at run time by a deterministic pool that executes each block of a partition in one "
          "forked worker; all Bell(n)^2 stage-1 x stage-2 partitions (n=3 quick: 25, n=4 thorough: 225) are run on a multi-chromosome world with read "
          "groups, multi-mappers, novel transcripts and a reference that already carries IsoQuant-style ids; outputs (all files outside aux/) must be "
-         "byte-identical to the threads=1 base after dropping the command-line header. PYTHONHASHSEED is additionally swept through the real CLI "
+         "byte-identical to the threads=1 base after dropping the command-line header. Set iteration order is owned by an AST import hook (PERMSET): every hash-order-dependent set that is iterated is a choice point, all single deviations from the sorted order are run (53 choice points, 267 runs on the quick world). PYTHONHASHSEED is additionally swept through the real CLI "
          "(8/48 seeds) as supporting, non-exhaustive evidence.",
-         "Trusted: equivalence of sequential block execution with concurrent workers (no shared memory, disjoint files). Set iteration order is owned "
-         "exhaustively only at the read-group seam; elsewhere the seed sweep is sampling.",
+         "Trusted: equivalence of sequential block execution with concurrent workers (no shared memory, disjoint files). Set orders are explored up to one deviation per run; sets created inside third-party libraries are not rewritten.",
          "DESIGN.md §3 C06"),
  "C10": ("model_checking",
          "explicit enumeration of all experiment sequences (histories) up to length 2/3 over a 3-experiment menu x threads {1, virtual pool} x {yaml, list} x grouping; differential oracle against stand-alone runs",
